@@ -984,6 +984,7 @@ func runC04(c *Ctx) {
 	// ---------- R9 a failed send is never taken for end of file ----------
 	checkEOFIsTheServersWord(c, "R9")
 	checkWriteFailureLatched(c, "R10")
+	checkRoundTripErrorKept(c, "R11")
 
 	// ---------- R8 no client lock is leaked: a later call would hang ----------
 	checkLockBalance(c, "R8", func(fn *ssa.Function) bool { return !isServerSide(fn) && outermost(fn).Package() == p.Sftp }, 15)
@@ -1584,4 +1585,79 @@ func checkWriteFailureLatched(c *Ctx, rule string) {
 		}
 	}
 	c.check(n == 1, rule, "(*conn).sendPacket frames through sendPacket(w, m)", p.Pos(connSend.Pos()), "one call", fmt.Sprintf("%d calls of sendPacket(w, m) in (*conn).sendPacket", n))
+}
+
+// checkRoundTripErrorKept (C04.R11): every client call is one or more round trips through (*clientConn).sendPacket, whose
+// error result is how a lost connection reaches the caller.  Necessary for "connection loss fails every call": the error
+// of each round trip goes somewhere — into a return, a variable, a struct, a call — and is not merely compared with nil
+// and forgotten (the shape a shadowed `err` in a loop leaves behind: the loop ends and the function returns what it
+// had collected, with a nil error).
+func checkRoundTripErrorKept(c *Ctx, rule string) {
+	p := c.P
+	sp := p.Func("(*clientConn).sendPacket")
+	if sp == nil {
+		c.missing(rule, "(*clientConn).sendPacket")
+		return
+	}
+	c.looked(fnName(sp))
+	n := 0
+	ord := map[string]int{}
+	for _, fn := range p.LibFuncs() {
+		if isServerSide(fn) {
+			continue
+		}
+		eachInstr(fn, func(in ssa.Instruction) {
+			call, ok := in.(*ssa.Call)
+			if !ok || call.Call.StaticCallee() != sp {
+				return
+			}
+			n++
+			k := fnName(fn)
+			ord[k]++
+			key := fmt.Sprintf("%s: error of round trip #%d is kept", k, ord[k])
+			var errEx *ssa.Extract
+			for _, r := range *call.Referrers() {
+				if ex, ok := r.(*ssa.Extract); ok && ex.Index == 2 {
+					errEx = ex
+				}
+			}
+			if errEx == nil {
+				c.bad(rule, key, p.Pos(in.Pos()), "the error of the round trip is discarded: a lost connection does not fail this call")
+				return
+			}
+			// does the value go anywhere but into comparisons?  (through phis and interface conversions)
+			kept := false
+			seen := map[ssa.Value]bool{}
+			var walk func(v ssa.Value)
+			walk = func(v ssa.Value) {
+				if seen[v] || kept {
+					return
+				}
+				seen[v] = true
+				refs := v.Referrers()
+				if refs == nil {
+					return
+				}
+				for _, r := range *refs {
+					switch x := r.(type) {
+					case *ssa.BinOp:
+						// a comparison keeps nothing
+					case *ssa.Phi:
+						walk(x)
+					case *ssa.ChangeInterface:
+						walk(x)
+					case *ssa.MakeInterface:
+						walk(x)
+					case *ssa.DebugRef:
+					default:
+						kept = true // returned, stored, passed on, sent, wrapped
+					}
+				}
+			}
+			walk(errEx)
+			c.check(kept, rule, key, p.Pos(in.Pos()), "the error value is returned, stored or passed on",
+				"the error of this round trip is only compared with nil and then forgotten: when the connection is lost here the call ends without reporting it (returns what it had, with the error of an outer variable that was never set)")
+		})
+	}
+	c.check(n >= 15, rule, "round trips", "?", fmt.Sprintf("%d calls of sendPacket", n), fmt.Sprintf("only %d calls of sendPacket found on the client side", n))
 }
